@@ -141,7 +141,7 @@ func upgradeDumpBody(r *Run) {
 	}
 	// --- what the old executable says
 	oldVersion := versionOf(w, dc)
-	cur, prev := treeVersions()
+	cur, prev := TreeVersions()
 	pre := dumpSweep(w, target, dc)
 	nv := w.BC.GetStorageItem(dc.ID, []byte("notary"))
 	notaryDisabled := len(nv) == 1 && nv[0] == 1
